@@ -234,3 +234,25 @@ CHECKS["C11"] = {
         {"pkg": "root", "run": "TestVF_C11_Boundary", "rapid": {"quick": 6, "thorough": 60}, "shards": {"quick": 2, "thorough": 8}},
     ],
 }
+
+CHECKS["C19"] = {
+    "level": "exploration",
+    "exhaustive_claim": False,
+    "technique": "exhaustive enumeration of small domains (all a mod p for odd primes p < 2^12, all n < 2^15/2^20 for four squares, all moduli 2^b-c for b <= 12, all x <= 2^16 for safe-prime recognition, all residues for small ModSqrt factor lists) + rapid-generated large operands up to 4096 bits, compared with math/big and with the defining equations; saved vectors re-checked by an independent pure-Python implementation in the thorough tier",
+    "level_text": "Each helper is compared on every generated input with its mathematical definition (a*inv = 1 and existence iff gcd = 1; Euler criterion / big.Jacobi; congruences of CRT; r^2 = a and existence per factor; four non-negative squares summing to n; x mod p in [0,p) with aliasing and negative operands; primes inside [2^start, 2^start+2^length]; safe primes of the exact size; table exponentiation = base^(e mod order)).",
+    "level_note": "RandomPrimeInRange is only called on intervals that contain a prime (it legitimately does not terminate otherwise). Group.Exp is fed exponents in (-order, order) only (documented panic outside).",
+    "rule": ("case = one helper evaluation. Non-trivial: inputs hitting the rarer branches (non-invertible operands, negative exponents, p = 1 mod 8, >= 3 ModSqrt factors, n = 0/1/3 mod 4 for four squares, negative or aliased FastMod operands, negative Group exponents) and every random large operand; distinct by (helper, operands)."),
+    "assumptions": ["math/big (Exp, GCD, Jacobi, ProbablyPrime, ModInverse) as reference", "python3 integers (thorough)"],
+    "units": [
+        {"pkg": "internal__common", "run": "TestVF_C19_ModInverse", "rapid": {"quick": 1500, "thorough": 20000}},
+        {"pkg": "internal__common", "run": "TestVF_C19_LegendreSqrt", "rapid": {"quick": 300, "thorough": 3000}, "shards": {"quick": 4, "thorough": 16}},
+        {"pkg": "internal__common", "run": "TestVF_C19_CrtModSqrt", "rapid": {"quick": 300, "thorough": 4000}, "shards": {"quick": 2, "thorough": 8}},
+        {"pkg": "internal__common", "run": "TestVF_C19_FourSquares", "rapid": {"quick": 500, "thorough": 5000}, "shards": {"quick": 4, "thorough": 16}},
+        {"pkg": "internal__common", "run": "TestVF_C19_FastMod", "rapid": {"quick": 3000, "thorough": 50000}, "shards": {"quick": 2, "thorough": 8}},
+        {"pkg": "internal__common", "run": "TestVF_C19_RandomPrimeInRange", "rapid": {"quick": 150, "thorough": 2000}, "shards": {"quick": 2, "thorough": 8}},
+        {"pkg": "internal__common", "run": "TestVF_C19_PythonVectors"},
+        {"pkg": "safeprime", "run": "TestVF_C19_SafePrimeRecognition", "shards": {"quick": 2, "thorough": 4}},
+        {"pkg": "safeprime", "run": "TestVF_C19_SafePrimeGenerate", "rapid": {"quick": 60, "thorough": 600}, "shards": {"quick": 2, "thorough": 8}},
+        {"pkg": "zkproof", "run": "TestVF_C19_GroupExp", "rapid": {"quick": 2000, "thorough": 30000}},
+    ],
+}
